@@ -64,11 +64,16 @@ def run(ctx, rep):
     rep.guarded("R15-DATA", lambda: r_data(sh, rep, gram))
     rep.guarded("R15-ESC", lambda: r_esc(sh, rep, gram))
     rep.guarded("R15-ESC", lambda: r_esc_cast(sh, rep))
+    rep.rule("R15-SEP", "separators between printed items are text or white space also in flat layout (never line_/softline_/nil alone)", floor=6)
+    rep.guarded("R15-SEP", lambda: r_sep(sh, rep))
+    rep.guarded("R15-TOTAL", lambda: r_action_arith(sh, rep, gram))
     rep.rule("R15-WS", "every closing bracket of the grammar is preceded by optional white space, matching the printer's soft line breaks", floor=20)
     rep.guarded("R15-WS", lambda: r_ws(sh, rep, gram))
     rep.rule("R15-TAGSITE", "Data constructor indices are printed through convert_tag_to_constr: no private copy of the tag ranges outside the functions R04-TAGS evaluates", floor=3)
     from . import c04
     rep.guarded("R15-TAGSITE", lambda: c04.r_tagsites(sh, rep, "R15-TAGSITE"))
+    rep.rule("R15-BIGINTSITE", "printer and parser convert Data big integers only through from/to_pallas_bigint (shared with C04)", floor=2)
+    rep.guarded("R15-BIGINTSITE", lambda: c04.r_bigintsites(sh, rep, "R15-BIGINTSITE"))
     rep.guarded("R15-TOTAL", lambda: r_total(sh, rep, gram))
 
 
@@ -391,6 +396,14 @@ def r_esc(sh, rep, gram):
             accepted.add(l)
         if "\\x" in alt.lits:
             flat = alt.action_flat()
+            # the action may delegate to a private function of parser.rs: read that function too
+            pj = sh.file(G)
+            for ident in list(flat):
+                try:
+                    hf = find_fn(pj, ident)
+                except AnchorMissing:
+                    continue
+                flat = flat + re.findall(r"[A-Za-z_][A-Za-z0-9_]*", sh.src(G, hf["body"]))
             # \xHH on the parser side: one decoded byte turned into one char (Latin-1 code point)
             hex_unit = "char" if ("into" in flat or "char" in flat) else "byte"
         if not alt.lits and not alt.actions and any(t["t"] == "g" and t["d"] == "[" for t in alt.toks):
@@ -563,3 +576,81 @@ def r_ws(sh, rep, gram):
                     n += 1
                     rep.check(ok, "R15-WS", "%s#%d#before%s" % (name, sum(1 for x in ts[:i] if x["t"] == "l" and x.get("v") == t["v"]), t["v"].strip('"')), "%s:%d" % (G, alt.line), "grammar rule %s does not allow white space before %s: the printer puts a soft line break there, so output wider than the page is rejected by the parser" % (name, t["v"]), sample={"rule": name})
     return n
+
+
+# ---------------------------------------------------------------------------------------------------------
+# R15-SEP: adjacent printed items are separated by something that is white space (or text) also in flat layout
+# ---------------------------------------------------------------------------------------------------------
+EMPTY_WHEN_FLAT = {"line_", "softline_", "nil"}
+
+
+def r_sep(sh, rep):
+    """`RcDoc::line_()` / `softline_()` print *nothing* when the group fits on one line. As a separator between two printed
+    items (constr fields, case branches, list elements without a comma) they glue adjacent tokens together: `(constr 0 x y)`
+    becomes `(constr 0 xy)`, another program. A separator must contain text (`,`) or be line()/space()/hardline()."""
+    fp = sh.file(P)
+    n = 0
+    for q, f in all_fns(fp):
+        if "body" not in f:
+            continue
+        for c in walk(f["body"]):
+            if c["k"] == "Call" and (call_name(c) or "").endswith("intersperse") and len(c["args"]) == 2:
+                n += 1
+                sep = c["args"][1]
+                names = [last(call_name(x) or "") for x in walk(sep) if x["k"] == "Call"]
+                has_text = any(x["k"] == "Lit" and x.get("lk") == "str" and x["v"].strip() for x in walk(sep)) or any(nm in ("text", "as_string") for nm in names)
+                ws = [nm for nm in names if nm in ("line", "space", "hardline", "softline")]
+                empty = [nm for nm in names if nm in EMPTY_WHEN_FLAT]
+                ok = has_text or (bool(ws) and not (empty and not ws))
+                if not has_text and empty and not ws:
+                    ok = False
+                rep.check(ok, "R15-SEP", "%s#intersperse#%d" % (q, n), sh.loc(P, c), "%s separates printed items with `%s`, which is empty when the group fits on one line: two adjacent items are then printed without anything between them and parse back as one token (or another term)" % (q, sh.nsrc(P, sep)[:40]), sample={"separator": sh.nsrc(P, sep)[:40]})
+    return n
+
+
+# ---------------------------------------------------------------------------------------------------------
+# R15-ACTIONS (arithmetic): grammar actions do not mix shift and additive operators without parentheses
+# ---------------------------------------------------------------------------------------------------------
+def r_action_arith(sh, rep, gram):
+    """`hi << 4 + lo` is `hi << (4 + lo)` in Rust. Inside grammar actions (token trees — no expression tree to consult) a shift
+    followed, in the same parenthesis level, by `+`/`-` (or preceded by one) is reported."""
+    n = 0
+    for name, r in sorted(gram.items()):
+        for alt in r.alts:
+            for act in alt.actions:
+
+                def scan(ts):
+                    nonlocal n
+                    ops = []
+                    i = 0
+                    while i < len(ts):
+                        t = ts[i]
+                        if t["t"] == "g":
+                            scan(t["c"])
+                        elif t["t"] == "p":
+                            v = t["v"]
+                            nxt = ts[i + 1] if i + 1 < len(ts) else None
+                            if v in ("<", ">") and t.get("j") and nxt is not None and nxt["t"] == "p" and nxt["v"] == v:
+                                ops.append("shift")
+                                i += 1
+                            elif v in ("+", "-") and not (nxt is not None and nxt["t"] == "p" and nxt["v"] == "=" and t.get("j")):
+                                # binary only: previous token is an identifier, literal or closing group
+                                prev = ts[i - 1] if i > 0 else None
+                                if prev is not None and prev["t"] in ("i", "l", "g"):
+                                    ops.append("add")
+                            elif v in (",", ";", "=") or (v == "=" and nxt is not None and nxt["v"] == ">"):
+                                if "shift" in ops and "add" in ops:
+                                    pass
+                                ops = ops if v not in (",", ";") else _flush(ops)
+                        i += 1
+                    _flush(ops)
+
+                def _flush(ops):
+                    nonlocal n
+                    if "shift" in ops and "add" in ops:
+                        n += 1
+                        rep.bad("R15-TOTAL", "%s#shift-and-additive-without-parentheses" % name, "%s:%d" % (G, alt.line), "the action of grammar rule %s mixes `<<`/`>>` with `+`/`-` at one parenthesis level: `a << b + c` shifts by `b + c`; a hex escape decoded this way yields another character" % name)
+                    return []
+
+                scan(act["c"])
+    rep.ok("R15-TOTAL", "actions#shift-additive-precedence", G, why="no grammar action mixes shift and additive operators at one level", nontrivial=False) if n == 0 else None
